@@ -25,6 +25,33 @@ func runBinary(t int, b []byte) string {
 	})
 }
 
+// runBinaryStack: Binary.Skip on a buffer that lives on the stack of a fresh goroutine (small initial stack), so
+// that the recursion of a nested value moves the stack — and the buffer with it — while skipping (finding F17:
+// the end of the buffer used to be kept as a uintptr, which the runtime does not adjust)
+func runBinaryStack(t int, b []byte) string {
+	if len(b) > stackBuf {
+		return "bad-op"
+	}
+	done := make(chan string, 1)
+	go func() { done <- skipOnStack(t, b) }()
+	return <-done
+}
+
+const stackBuf = 1024
+
+//go:noinline
+func skipOnStack(t int, b []byte) string {
+	var buf [stackBuf]byte
+	n := copy(buf[:], b)
+	return lib.Guard(func() string {
+		k, err := thrift.Binary.Skip(buf[:n], thrift.TType(int8(t)))
+		if err != nil {
+			return "err " + lib.ErrStr(err)
+		}
+		return fmt.Sprintf("ok %d", k)
+	})
+}
+
 func mkReader(b []byte, src string) (bufiox.Reader, *lib.Source) {
 	if src[0] == 'b' {
 		c, _ := strconv.Atoi(src[1:])
@@ -129,6 +156,19 @@ func runReuse(kind string, t1 int, b1 []byte, t2 int, b2 []byte, src2 string) st
 				return "err " + lib.ErrStr(err)
 			}
 			return fmt.Sprintf("ok %s %d", lib.Hex(got), r2.ReadLen())
+		case "bufiox-again":
+			// ONE SkipDecoder over a bytes-backed reader holding b2: a first Next(t1) that fails part-way (it only
+			// peeks, so nothing is consumed), then — without Release — Next(t2) must behave like a fresh decoder on b2
+			r2, _ := mkReader(b2, src2)
+			d := thrift.NewSkipDecoder(r2)
+			if _, err := d.Next(thrift.TType(int8(t1))); err == nil {
+				return "first-ok"
+			}
+			got, err := d.Next(thrift.TType(int8(t2)))
+			if err != nil {
+				return "err " + lib.ErrStr(err)
+			}
+			return fmt.Sprintf("ok %s %d", lib.Hex(got), r2.ReadLen())
 		case "reader-reset", "reader-pool":
 			d := thrift.NewReaderSkipDecoder(lib.NewSource(b1, benignScript(lib.NewRng(7), len(b1))))
 			_, _ = d.Next(thrift.TType(int8(t1)))
@@ -188,6 +228,24 @@ func emitReuse(r *lib.Rng, t1 int, b1 []byte, t2 int, b2 []byte) {
 		em.Count("reuse:" + kind)
 		em.Line(runReuse(kind, t1, b1, t2, b2, src), "skipreuse", kind, strconv.Itoa(t1), lib.Hex(b1), strconv.Itoa(t2), lib.Hex(b2), src)
 	}
+	// the same decoder object again, without Release: first Next with another type on the same bytes, kept only
+	// when that first call fails (seeded changes C02_w6_2 / C08_w6_1: the peek offset survived a failed Next)
+	for _, ta := range []int{12, 15, 13, 11, 14, int(r.Intn(256))} {
+		if ta == t2 || lib.MaxRequest(ta, b2) > allocCap {
+			continue
+		}
+		src := "b" + strconv.Itoa(len(b2)+r.Pick(0, 0, 5))
+		if len(b2) == 0 {
+			src = "b1"
+		}
+		res := runReuse("bufiox-again", ta, b2, t2, b2, src)
+		if res == "first-ok" {
+			em.Count("reuse:bufiox-again-first-ok(skipped)")
+			continue
+		}
+		em.Count("reuse:bufiox-again")
+		em.Line(res, "skipreuse", "bufiox-again", strconv.Itoa(ta), "-", strconv.Itoa(t2), lib.Hex(b2), src)
+	}
 }
 
 // emit runs one input on every skipper (subject to the allocation guard)
@@ -210,6 +268,11 @@ func emit(r *lib.Rng, class string, t int, b []byte, streams bool) {
 	em.Line(res, "skip", "binary", ts, hx, "-")
 	res = runTplBytes(t, b)
 	em.Line(res, "skip", "tplbytes", ts, hx, "-")
+	if len(b) <= stackBuf {
+		res = runBinaryStack(t, b)
+		em.Count("binstack:" + firstTok(res))
+		em.Line(res, "skip", "binstack", ts, hx, "-")
+	}
 	if !streams {
 		return
 	}
@@ -558,6 +621,8 @@ func replay(lines [][]string) {
 		switch f[1] {
 		case "binary":
 			res = runBinary(t, b)
+		case "binstack":
+			res = runBinaryStack(t, b)
 		case "br":
 			res = runBR(t, b, f[4])
 		case "tplbytes":
